@@ -136,9 +136,12 @@ class Interp:
                         val = str(val)
                     elif v.conversion == ord("r"):
                         val = repr(val)
-                    parts.append(format(val, spec))
+                    try:
+                        parts.append(format(val, spec))
+                    except (ValueError, TypeError) as exc:
+                        raise Flow("raise", f"{type(exc).__name__}({str(exc)!r} while formatting {U(v.value)})", node) from None
             return "".join(parts)
-        if isinstance(node, ast.BinOp) and isinstance(node.op, (ast.Add, ast.Sub, ast.Mult, ast.FloorDiv, ast.Mod)):
+        if isinstance(node, ast.BinOp) and isinstance(node.op, (ast.Add, ast.Sub, ast.Mult, ast.FloorDiv, ast.Mod, ast.Div, ast.Pow)):
             a, b = self.ev(node.left), self.ev(node.right)
             if isinstance(a, Unknown) or isinstance(b, Unknown):
                 return Unknown("arith")
@@ -151,9 +154,15 @@ class Interp:
                     return a * b
                 if isinstance(node.op, ast.FloorDiv):
                     return a // b
+                if isinstance(node.op, ast.Div):
+                    return a / b
+                if isinstance(node.op, ast.Pow):
+                    return a ** b
                 return a % b
             except TypeError:
                 return Unknown("arith " + text)
+            except ZeroDivisionError:
+                raise Flow("raise", "ZeroDivisionError('division by zero')", node) from None
         if isinstance(node, ast.Subscript):
             base = self.ev(node.value)
             if isinstance(base, Unknown):
@@ -302,10 +311,17 @@ class Interp:
         elif isinstance(st, ast.AugAssign):
             cur = self.ev_soft(st.target)
             val = self.ev_soft(st.value)
-            if isinstance(cur, Unknown) or isinstance(val, Unknown) or not isinstance(st.op, ast.Add):
+            ops = {ast.Add: lambda a, b: a + b, ast.Sub: lambda a, b: a - b, ast.Mult: lambda a, b: a * b, ast.Div: lambda a, b: a / b,
+                   ast.FloorDiv: lambda a, b: a // b, ast.Mod: lambda a, b: a % b}
+            if isinstance(cur, Unknown) or isinstance(val, Unknown) or type(st.op) not in ops:
                 new = Unknown("augassign")
             else:
-                new = cur + val
+                try:
+                    new = ops[type(st.op)](cur, val)
+                except TypeError:
+                    new = Unknown("augassign")
+                except ZeroDivisionError:
+                    raise Flow("raise", "ZeroDivisionError('division by zero')", st) from None
             self.store(st.target, new, st)
         elif isinstance(st, ast.Expr):
             if isinstance(st.value, ast.Constant):
